@@ -48,10 +48,13 @@ Compact == /\ {1, 2} \subseteq bucket /\ 3 \notin bucket \cup gone
 Sync == /\ loaded # bucket /\ Tick /\ loaded' = bucket /\ UNCHANGED <<bucket, gone, cache, last>>
 
 Entry(b, ms) == { e \in cache : e[1] = Key(b, ms) }
+LazySets == { {}, {"n0"}, {"n1"} }
+(* the expansion of every (block, selectors, lazy choice): a constant table, evaluated once *)
+Expanded == [b \in Ids, ms \in QSets, L \in LazySets |->
+                ExpandNames(Content[b], ms, IF L \in LazyChoices(Content[b], ms) THEN L ELSE {})]
 PerBlock(b, ms, L) ==
-    IF Entry(b, ms) # {} THEN (CHOOSE e \in Entry(b, ms) : TRUE)[2]
-    ELSE ExpandNames(Content[b], ms, IF L \in LazyChoices(Content[b], ms) THEN L ELSE {})
-Query == \E ms \in QSets : \E L \in SUBSET {"n0", "n1"} :
+    IF Entry(b, ms) # {} THEN (CHOOSE e \in Entry(b, ms) : TRUE)[2] ELSE Expanded[b, ms, L]
+Query == \E ms \in QSets : \E L \in LazySets :
            /\ Tick
            /\ last' = <<ms, loaded, UNION { PerBlock(b, ms, L) : b \in loaded }>>
            /\ cache' = cache \cup { <<Key(b, ms), PerBlock(b, ms, L)>> : b \in { x \in loaded : Entry(x, ms) = {} } }
@@ -61,8 +64,9 @@ Evict == /\ cache # {} /\ Tick /\ \E e \in cache : cache' = cache \ {e}
 Next == Upload \/ Delete \/ Compact \/ Sync \/ Query \/ Evict
 Spec == Init /\ [][Next]_vars
 
+Selection == [b \in Ids, ms \in QSets |-> SelectIds(Content[b], ms)]
 C10_AnswerIsSelectionOverLoadedBlocks ==
-    last # <<>> => last[3] = UNION { SelectIds(Content[b], last[1]) : b \in last[2] }
+    last # <<>> => last[3] = UNION { Selection[b, last[1]] : b \in last[2] }
 LoadedFollowsBucketAtSync == loaded \subseteq bucket \cup gone
 View == <<bucket, gone, loaded, cache, last>>     \* the step counter only bounds the exploration
 =============================================================================
